@@ -2,6 +2,8 @@
 
 CC = "internal/app/connectconformance"
 MAIN = "cmd/connectconformance"
+RS = "internal/app/referenceserver"
+RC = "internal/app/referenceclient"
 
 PROPS = {}
 
@@ -135,6 +137,11 @@ PROPS["C18"] = {
          "checks": {"quick": 40000, "thorough": 200000}, "shards": {"quick": 1, "thorough": 8}},
         {"name": "C18Percent", "pkg": GU, "test": "TestVerifC18Percent", "kind": "rapid",
          "checks": {"quick": 40000, "thorough": 300000}, "shards": {"quick": 1, "thorough": 8}},
+        # the reference server's own rendering of an error as the gRPC status trio, and the reference client's decoder of it
+        {"name": "C18StatusTrailers", "pkg": RS, "test": "TestVerifC18StatusTrailers", "kind": "rapid",
+         "checks": {"quick": 10000, "thorough": 150000}, "shards": {"quick": 2, "thorough": 8}},
+        {"name": "C18StatusDecode", "pkg": RC, "test": "TestVerifC18StatusDecode", "kind": "rapid",
+         "checks": {"quick": 10000, "thorough": 150000}, "shards": {"quick": 2, "thorough": 8}},
     ],
 }
 
